@@ -2,3 +2,4 @@ import Fix8Model.Props.C07
 import Fix8Model.Props.C08
 import Fix8Model.Props.C09
 import Fix8Model.Props.C10
+import Fix8Model.Props.C12
